@@ -28,6 +28,19 @@ KINDS = ["ontime", "early", "late", "equal"]
 ALPHA = "ABCDEFGHIJKLMNOPQRSTUVWXYZabcdefghijklmnopqrstuvwxyz0123456789"
 
 
+def tally(stats, key, val):
+    d = stats.setdefault(key, {})
+    d[str(val)] = d.get(str(val), 0) + 1
+
+
+def len_class(n, cols):
+    return "empty" if n == 0 else "shorter" if n < cols else "equal" if n == cols else "longer"
+
+
+def speed_class(sp):
+    return "negative" if sp < 0 else "zero" if sp == 0 else "one" if sp == 1 else "larger"
+
+
 def bound(n, cols):
     return n + 2 * cols + 2
 
@@ -314,7 +327,7 @@ def gen_host_cases(ctx):
         for _ in range(rng.randint(2, 4)):
             st = rng.choice(STYLES + (["SCROLL", "Blink", "wave"] if rng.random() < 0.2 else []))
             row = rng.randrange(rows) if rng.random() < 0.85 else rng.choice([-1, rows, rows + 3])
-            anims.append([st, row, mk_text(rng.choice(len_classes(cols)), salt=j + len(anims)), rng.choice([0, 1, 3, 100]), rng.random() < 0.5])
+            anims.append([st, row, mk_text(rng.choice(len_classes(cols)), salt=j + len(anims)), rng.choice([0, 1, 3, 100, -2]), rng.random() < 0.5])
         nows = tick_times("mixed", rng.choice([1, 3, 100]), 40, rng, cap=200)
         cases.append({"cols": cols, "rows": rows, "i2c": False, "anims": anims, "nows": nows, "tag": "multi"})
     # geometry rejected by the constructor; tick with now = 0 (tick() without argument)
@@ -343,6 +356,14 @@ def run_host(ctx, stats):
         if host_in_guard(c):
             host_oracle(ctx, c, r, stats)
         stats["host_ticks"] = stats.get("host_ticks", 0) + len(r["ticks"])
+        tally(stats, "host_animations_per_case", len(c["anims"]))
+        for a, ra in zip(c["anims"], r.get("animate", [])):
+            tally(stats, "host_style", str(a[0]).lower())
+            tally(stats, "host_loop", bool(a[4]))
+            tally(stats, "host_speed", speed_class(int(a[3])))
+            tally(stats, "host_text_vs_cols", len_class(len(a[2]), c["cols"]))
+            tally(stats, "host_animate_result", ra["status"])
+        tally(stats, "host_cols", c["cols"])
         stats.setdefault("host_tags", {})
         stats["host_tags"][c["tag"]] = stats["host_tags"].get(c["tag"], 0) + 1
         if r["new"] == "ok" and r["ticks"] and any(t["events"] for t in r["ticks"]):
@@ -661,6 +682,14 @@ def run_device(ctx, stats):
             device_compare(ctx, case, m, setup, passes, lid)
         device_oracle(ctx, case, setup, passes, lid, stats)
         stats["dev_cases"] = stats.get("dev_cases", 0) + 1
+        tally(stats, "dev_animations_per_display", len(case["lcd"]["anims"]))
+        tally(stats, "dev_cols", case["lcd"]["cols"])
+        tally(stats, "dev_wiring", "i2c" if case["lcd"]["i2c"] else "parallel")
+        for a in case["lcd"]["anims"]:
+            tally(stats, "dev_style", a[0])
+            tally(stats, "dev_loop", bool(a[4]))
+            tally(stats, "dev_speed", speed_class(int(a[3])))
+            tally(stats, "dev_text_vs_cols", len_class(len(a[2]), case["lcd"]["cols"]))
         stats["dev_passes"] = stats.get("dev_passes", 0) + len(passes)
         if any(p["lw"].get(lid) for p in passes):
             nontrivial.add(repr((case["lcd"], case["nows"][:6])))
